@@ -73,6 +73,9 @@ Proof.
   - destruct (Nat.eqb c k); cbn; auto.
 Qed.
 
+Lemma pres_touch f : (forall d, I d -> I (f d)) -> pres af I S (fun _ => True) (touch f).
+Proof. intros Hf pl c d Hp Hi. unfold touch, out_of, disk_of. cbn. auto. Qed.
+
 Lemma pres_mut_swallow f g :
   (forall d, I d -> I (f d)) -> (forall d, I d -> S (g d)) ->
   (af = true -> forall d, I d -> I (g d)) ->
@@ -106,7 +109,8 @@ Definition GLd (st : sstate * pstate) : Prop := Gd (snd st) /\ forall q, Rs {| r
 Notation P := (pres af I S).
 Hypothesis H_wpj : forall s, Gd s -> P (fun _ => True) (write_pj s).
 Hypothesis H_wsj : forall s, Rs s -> P (fun _ => True) (write_sj s).
-Hypothesis H_atomic : forall f, (forall d, pj (f d) = pj d /\ sj (f d) = sj d) -> P (fun _ => True) (atomic f).
+Hypothesis H_set : forall X, I X -> P (fun _ => True) (atomic (fun _ => X)).
+Hypothesis I_arts : forall d a, I d -> I (set_arts d a).
 Hypothesis H_sweep : forall s n, P (fun _ => True) (sweepM s n).
 Variable c : cfg.
 Hypothesis H_load : P GLd (loadM c).
@@ -118,9 +122,9 @@ Lemma G_rm_art n : P (fun _ => True) (rm_art n).
 Proof.
   unfold rm_art. step; [apply pres_get|].
   destruct (arts a n) as [[|b]|].
-  - apply H_atomic. intros; split; reflexivity.
-  - step; apply H_atomic; intros; split; reflexivity.
-  - rt.
+  - apply H_set. apply I_arts. exact H.
+  - step; apply H_set; apply I_arts; exact H.
+  - apply pres_touch. intros d0 _. apply I_arts. exact H.
 Qed.
 
 Definition GI (r : pstate * bool) : Prop := Gd (fst r).
@@ -190,8 +194,8 @@ Qed.
 Lemma G_add_patch s n b h sg : ~ In n (bad s) -> Gd s -> P Gd (add_patchM s n b h sg).
 Proof.
   intros Hn [H He]. unfold add_patchM. step; [apply pres_get|].
-  step. { destruct (arts a n); [rt|apply H_atomic; intros; split; reflexivity]. }
-  step; [apply H_atomic; intros; split; reflexivity|].
+  step. { destruct (arts a n); [rt|apply H_set; apply I_arts; exact H0]. }
+  step; [apply H_set; apply I_arts; exact H0|].
   step.
   { destruct (nb s) as [x|]; [destruct (lb s) as [l|]|]; try rt.
     match goal with |- context [if ?c then _ else _] => destruct c end; [eapply pres_ignore, G_rm_art|rt]. }
@@ -328,8 +332,10 @@ Let RsA (s : sstate) : Prop := True.
 Ltac step := eapply pres_bind; [|intros].
 Ltac rt := apply (pres_ret (fun _ => True)); exact Logic.I.
 
-Lemma A_atomic f : (forall d, pj (f d) = pj d /\ sj (f d) = sj d) -> P (fun _ => True) (atomic f).
-Proof. intros H. apply pres_mut; intros; unfold PJI in *; rewrite ?(proj1 (H _)); auto. Qed.
+Lemma A_set X : PJI X -> P (fun _ => True) (atomic (fun _ => X)).
+Proof. intros H. apply pres_mut; intros; auto. Qed.
+Lemma A_arts d a : PJI d -> PJI (set_arts d a).
+Proof. auto. Qed.
 
 Lemma A_write_pj s : Gd ExtraA s -> P (fun _ => True) (write_pj s).
 Proof.
@@ -376,8 +382,8 @@ Theorem any_fault_keeps_pji c o :
 Proof.
   assert (Hm : forall l l' : list N, incl l l' -> ExtraA l -> ExtraA l') by (intros; exact Logic.I).
   split.
-  - apply (G_call sha sigok zdec base true PJI PJI ExtraA RsA Hm A_write_pj A_write_sj A_atomic A_sweep c (A_load c)).
-  - apply (G_init sha sigok true PJI PJI ExtraA RsA Hm A_write_pj A_write_sj A_atomic c (A_load c)).
+  - apply (G_call sha sigok zdec base true PJI PJI ExtraA RsA Hm A_write_pj A_write_sj A_set A_arts A_sweep c (A_load c)).
+  - apply (G_init sha sigok true PJI PJI ExtraA RsA Hm A_write_pj A_write_sj A_set A_arts c (A_load c)).
 Qed.
 
 End A.
@@ -407,12 +413,13 @@ Notation P := (pres false IB SB).
 Ltac step := eapply pres_bind; [|intros].
 Ltac rt := apply (pres_ret (fun _ => True)); exact Logic.I.
 
-Lemma B_atomic f : (forall d, pj (f d) = pj d /\ sj (f d) = sj d) -> P (fun _ => True) (atomic f).
+Lemma B_arts d a : IB d -> IB (set_arts d a).
+Proof. intros [[x Hx] G]. split; [exists x; exact Hx|exact G]. Qed.
+
+Lemma B_set X : IB X -> P (fun _ => True) (atomic (fun _ => X)).
 Proof.
   intros H. apply pres_mut.
-  - intros d [Sd G]. destruct (H d) as [Hp Hs]. split.
-    + destruct Sd as [s [E1 E2]]. exists s. rewrite Hs. auto.
-    + unfold load_p in *. rewrite Hp. exact G.
+  - intros; exact H.
   - intros sub d Hd. apply IB_SB. exact Hd.
   - discriminate.
 Qed.
@@ -469,8 +476,8 @@ Proof.
   assert (Hm : forall l l' : list N, incl l l' -> ExtraB l -> ExtraB l').
   { intros l l' H1 H2 k Hk. apply H1, H2, Hk. }
   split.
-  - apply (G_call sha sigok zdec base false IB SB ExtraB RsB Hm B_write_pj B_write_sj B_atomic B_sweep c B_load).
-  - apply (G_init sha sigok false IB SB ExtraB RsB Hm B_write_pj B_write_sj B_atomic c B_load).
+  - apply (G_call sha sigok zdec base false IB SB ExtraB RsB Hm B_write_pj B_write_sj B_set B_arts B_sweep c B_load).
+  - apply (G_init sha sigok false IB SB ExtraB RsB Hm B_write_pj B_write_sj B_set B_arts c B_load).
 Qed.
 
 End B.
